@@ -129,7 +129,8 @@ def run(ctx):
 
         def last_atom(c):
             """+1: `idx != cnt - 1`, -1: `idx == cnt - 1`"""
-            if not (c[0] == "bin" and c[1] in ("Ne", "Eq") and is_idx(c[2])):
+            # (idx enumerates the same vector, so idx <= len - 1 throughout: `idx < len - 1` says the same as `idx != len - 1`)
+            if not (c[0] == "bin" and c[1] in ("Ne", "Eq", "Lt", "Ge") and is_idx(c[2])):
                 return 0
             r = c[3]
             r = r[1] if r[0] == "field" else r
@@ -137,7 +138,7 @@ def run(ctx):
                 return 0
             l = r[2]
             if l[0] == "call" and l[1] == "std::vec::Vec::<T, A>::len" and M.noref(l[2][0]) == ("field", selfp, "cmds") and l[3] not in loop:
-                return 1 if c[1] == "Ne" else -1
+                return 1 if c[1] in ("Ne", "Lt") else -1
             return 0
         e, _ = cond_edges(pp, T, last_atom)
         ctx.ob("R13.1", "stage-stdout.under-idx!=cnt-1", dominated_by_edges(pp, bb, e, start=nxt[0][0]), pp.loc(bb), "every stage but the last gets stdout = Pipe (guard idx != cnt - 1 with cnt = self.cmds.len() read before the loop)")
@@ -324,7 +325,10 @@ def run(ctx):
         recv = M.noref(M.strip(Tc.operand(wc[0][1]["args"][0])))
         vec = ("field", ("field", ("downcast", ("call",), "x"), "0"), "1")
         ok = recv[0] == "call" and "index" in recv[1].lower()
-        if ok:
+        if not ok and recv[0] == "call" and (recv[1].endswith("::last_mut") or recv[1].endswith("::last")):
+            # v.last_mut().unwrap(): the last of the started stages all the same
+            ok = M.contains(recv, lambda u: u[0] == "call" and u[1] == "builder::pipeline::Pipeline::setup_communicate")
+        elif ok:
             i = recv[2][1]
             i = i[1] if i[0] == "field" else i
             ok = i[0] == "bin" and i[1] in ("Sub", "SubWithOverflow") and const_of(i[3]) == 1 and i[2][0] == "call" and i[2][1] == "std::vec::Vec::<T, A>::len" and M.noref(i[2][2][0]) == M.noref(recv[2][0])
